@@ -105,6 +105,7 @@ let do_step (e : event) : string =
        | ORouting RNotDispatched -> "N"
        | ORouting RNoOwner -> "U"
        | ORouting RToDriver -> "V"
+       | ORouting RRejected -> "J"
        | ORouting (RDelivered l) -> "D " ^ conns l
        | OSignals l -> "G " ^ (if l = [] then "-" else String.concat ";" (List.map (fun (n, rc) -> hex_of_bytes n ^ ":" ^ conns rc) l))))
   ^ " | " ^ sp ^ cl
